@@ -5,6 +5,7 @@ import WmModel.Props.C02Inflight
 #print axioms Wm.Handle.settles_exactly_once
 #print axioms Wm.Handle.settle_is_last_before_done
 #print axioms Wm.Handle.ack_iff
+#print axioms Wm.Handle.ack_iff_with
 #print axioms Wm.Handle.nack_iff
 #print axioms Wm.Handle.not_ack_and_nack
 #print axioms Wm.Handle.nack_on_error
